@@ -14,9 +14,10 @@ G(t) == C("g", <<t>>)
 X == V(1)
 Alphabet == { G(X), A("!"), A("fail"), C("q", <<X>>), C("call", <<A("!")>>), C("call", <<C(",", <<G(X), A("!")>>)>>),
               C("\\+", <<G(X)>>), C("once", <<G(X)>>), C(";", <<C("->", <<G(X), A("true")>>), C("w", <<A("e")>>)>>),
-              C(";", <<G(X), C("=", <<X, A("d")>>)>>), C("w", <<X>>) }
+              C(";", <<G(X), C("=", <<X, A("d")>>)>>), C("w", <<X>>),
+              C("->", <<G(X), C("w", <<X>>)>>) }                                 \* if-then WITHOUT else: commits to the condition's first answer, cuts nothing else
 \* the goals that cut, commit or leave choice points: longer bodies are enumerated over this sub-alphabet
-CutAlphabet == { G(X), A("!"), C("q", <<X>>), C("once", <<G(X)>>), C(";", <<C("->", <<G(X), A("true")>>), C("w", <<A("e")>>)>>),
+CutAlphabet == { G(X), A("!"), C("q", <<X>>), C("once", <<G(X)>>), C(";", <<C("->", <<G(X), A("true")>>), C("w", <<A("e")>>)>>), C("->", <<G(X), A("true")>>),
                  C("call", <<C(",", <<G(X), A("!")>>)>>) }
 \* a cut inside call/N, \+, findall, bagof, catch or a goal bound at run time is local to that goal, wherever it stands in the inner
 \* conjunction (left-nested, in the middle, last); Y is a second clause variable
